@@ -9,13 +9,13 @@ from .c12 import check_column
 RULE = ("Cases: (exhaustive) every phase sequence of length 1..L over {0.1,1.5,3.1,4.7,6.2} (L=6 quick, "
         "8 thorough) x phase_edge in {pi/12,pi/6,pi/4,pi/2}; (mask) Hypothesis-drawn long/short phases x "
         "phase_edge (incl. exactly 0) x phase_step (incl. exactly 0) x boolean masks {none, random, block} x phase_step; (is_good) drawn single segments fed "
-        "to is_good; (container) Cycles(phase, use_cache in {True,False}).metrics['is_good'] per cycle. "
+        "to is_good; (container) Cycles(phase, use_cache in {True,False}[, phase_edge]).metrics['is_good'] per cycle. "
         "Oracle: a wrap-delimited segment must be labelled iff strictly increasing, 0<p[0]<edge, "
         "2pi-edge<p[-1]<2pi and mask all-true (boundary equalities are don't-care: docstring strict, code "
         "inclusive); labels form an order-preserving renumbering of the accepted subset of the partition. "
         "Non-trivial: >=1 accepted and >=1 rejected segment in the case.")
 ASSUMPTIONS = ["boolean vector masks only (the documented kind)",
-               "container checked with its default phase_edge (pi/12), which is what is_good uses there"]
+               "a container built with phase_edge=e must flag its cycles by the criteria with that e (half of the random container cases)"]
 
 EDGES = [np.pi / 12, np.pi / 6, np.pi / 4, np.pi / 2]
 
@@ -127,9 +127,12 @@ def oracle_container(case, rec):
     if not segs:
         raise Discard('no wrap: container has no cycles')
     res = []
+    edge = case.get('edge', np.pi / 12)
+    ekw = {'phase_edge': edge} if 'edge' in case else {}
+    rec.cls('phase_edge=%s' % ('default' if 'edge' not in case else 'given'))
     for cache in (True, False):
         try:
-            C = emd.cycles.Cycles(p.copy(), use_cache=cache)
+            C = emd.cycles.Cycles(p.copy(), use_cache=cache, **ekw)
             ig = np.asarray(C.metrics['is_good'])
         except Exception as e:
             raise Violation('C13/Cycles/raises/%s/cache=%s' % (type(e).__name__, cache), repr(e))
@@ -137,13 +140,14 @@ def oracle_container(case, rec):
             raise Violation('C13/Cycles/is_good-length/cache=%s' % cache, '%d entries for %d cycles' % (len(ig), len(segs)))
         res.append(ig)
         for j, (a, b) in enumerate(segs):
-            v, reasons = refmodel.good_verdict(p[a:b], np.pi / 12)
+            v, reasons = refmodel.good_verdict(p[a:b], edge)
             if v is None:
                 continue
             if bool(ig[j]) != v:
-                raise Violation('C13/Cycles/is_good-flag/cache=%s/%s' % (cache, 'last-cycle' if j == len(segs) - 1 else 'cycle'),
+                raise Violation('C13/Cycles/is_good-flag/cache=%s/%s%s' % (cache, 'last-cycle' if j == len(segs) - 1 else 'cycle',
+                                                                            '' if 'edge' not in case else '/container-built-with-its-own-phase_edge'),
                                 'cycle %d [%d,%d) flag %r expected %r (%s)' % (j, a, b, ig[j], v, reasons))
-    verdicts = [refmodel.good_verdict(p[a:b], np.pi / 12)[0] for a, b in segs]
+    verdicts = [refmodel.good_verdict(p[a:b], edge)[0] for a, b in segs]
     rec.cls('ncycles=%s' % (len(segs) if len(segs) < 6 else '6+'))
     return (True in verdicts) and (False in verdicts)
 
@@ -224,7 +228,8 @@ def seg_case(draw):
 container_strategy = st.fixed_dictionaries({
     'p': st.one_of(gens.synth_phase(max_n=300, max_cols=1).map(lambda a: a[:, 0]),
                    gens.monotone_cycles_phase(2, 8, 3, 40).map(lambda t: t[0]),
-                   gens.short_phase(30, 2))})
+                   gens.short_phase(30, 2))},
+    optional={'edge': st.sampled_from(EDGES)})
 
 CLAUSES = [
     Clause('C13.exhaustive', oracle_vector, enumerate=enum_alphabet, quick=None, thorough=None,
